@@ -301,8 +301,81 @@ def ob_quadrature(seed):
     return Ob("C20.integrated.quadrature", "B", body, clause="closed form equals numerical integration (bounded)", funcs=FUNCS)
 
 
+def _history_world(kind):
+    """make(indices) for specs.histories.explore over the REAL smoothing / integrated priors"""
+    import torchtree.distributions.gmrf as gm
+    import torchtree.distributions.gmrf_integrated as gi
+    import torchtree.evolution.coalescent as co
+    from torchtree.core.parameter import Parameter
+    from specs import treemodels
+    t64 = lambda v: torch.tensor(v, dtype=torch.float64)
+    names = ["A", "B", "C", "D"]
+    tree = ((0, 1), (2, 3))
+    tips = [0.0, 0.5, 0.0, 1.0]
+    heights = [t64([1.2, 2.0, 3.0]), t64([2.4, 1.5, 3.3]), t64([0.9, 1.1, 4.0])]
+    fields = [t64([0.3, -0.2, 1.1]), t64([1.0, 0.4, -0.7]), t64([-0.5, -0.1, 0.2])]
+    taus = [t64([2.0]), t64([0.6]), t64([3.5])]
+    betas = [t64([0.4, -1.0]), t64([1.2, 0.3]), t64([-0.6, 0.8])]
+
+    def make(idx):
+        idx = idx or (0, 0, 0)
+        idx = tuple(idx) + (0,) * (3 - len(idx))
+        x = Parameter("x", fields[idx[0]].clone())
+        if kind in ("gmrf.plain", "gmrf.weighted"):
+            tau = Parameter("tau", taus[idx[1]].clone())
+            m = gm.GMRF("g", x, tau, weights=t64([0.5, 2.0]) if kind.endswith("weighted") else None)
+            return (lambda: m()), [x, tau], {}, [fields, taus]
+        if kind == "gmrf.timeaware":
+            tau = Parameter("tau", taus[idx[1]].clone())
+            tm, _ = treemodels.build_timetree(tree, names, tips, heights[idx[2]].clone())
+            m = gm.GMRF("g", x, tau, tm)
+            return (lambda: m()), [x, tau, tm._internal_heights], {"node_heights": (lambda: tm.node_heights)}, [fields, taus, heights]
+        if kind == "gmrf.covariate":
+            tau = Parameter("tau", taus[idx[1]].clone())
+            beta = Parameter("beta", betas[idx[2]].clone())
+            cov = Parameter("cov", t64([[0.1, 1.0], [0.5, -0.3], [-1.2, 0.7]]))
+            m = gm.GMRFCovariate("g", x, tau, cov, beta)
+            return (lambda: m()), [x, tau, beta], {}, [fields, taus, betas]
+        if kind == "gmrf.integrated.timeaware":
+            tm, _ = treemodels.build_timetree(tree, names, tips, heights[idx[1]].clone())
+            m = gi.GMRFGammaIntegrated("g", x, 1.5, 0.8, tm)
+            return (lambda: m()), [x, tm._internal_heights], {"node_heights": (lambda: tm.node_heights)}, [fields, heights]
+        if kind == "coalescent.integrated":
+            tm, _ = treemodels.build_timetree(tree, names, tips, heights[idx[0]].clone())
+            m = co.ConstantCoalescentIntegratedModel("c", tm, 1.5, 0.8)
+            return (lambda: m()), [tm._internal_heights], {"node_heights": (lambda: tm.node_heights)}, [heights]
+        raise ValueError(kind)
+    return make
+
+
+HISTORY_KINDS = ("gmrf.plain", "gmrf.weighted", "gmrf.timeaware", "gmrf.covariate", "gmrf.integrated.timeaware", "coalescent.integrated")
+
+
+def ob_history(kind, depth):
+    def body():
+        from specs import histories
+        bad, n = histories.explore(_history_world(kind), depth)
+        if bad is not None:
+            hist, got, want = bad
+            raise Refuted("%s after the history %s returns %s, a freshly built object holding the current values returns %s" % (kind, hist, got, want),
+                          witness={"kind": kind, "history": hist}, replay={"kind": "custom", "contract": "C20", "func": "replay_history", "args": {"kind": kind, "depth": depth}}, confirmed=True)
+        return {"backend": "heap", "cases": n, "statement": "%d histories of updates, reads and evaluations: %s returns the density of the current values" % (n, kind)}
+    return Ob("C20.history[%s,depth<=%d]" % (kind, depth), "B", body,
+              clause="the prior returns the density of the CURRENT field, precision / covariate coefficients and node heights after every history", funcs=FUNCS)
+
+
+def replay_history(args):
+    try:
+        ob_history(args["kind"], args["depth"]).fn()
+    except Refuted as e:
+        return False, e.detail
+    return True, "held"
+
+
 def obligations(tier, seed):
     obs = []
+    for kind in HISTORY_KINDS:
+        obs.append(ob_history(kind, 3 if tier == "quick" else 4))
 
     def add(name, factory, args, clause, **kw):
         kw.setdefault("max_paths", 20000)
